@@ -1149,5 +1149,63 @@ func extractC07Guards(c *Ctx) error {
 		}
 	}
 	c.P("Definition upload_first_deployment_decision : string := %s.", CoqStr(decision))
+
+	// sixth round: state of the evm keeper that is NOT in the store.  Every field of the Keeper struct, with its type: a field
+	// the model does not know (a map, a cache, a memo of projections ...) is unclassified.  And attestTransactionIntegrity must
+	// project the named snapshot for the message's own chain by calling transformSnapshotToCompass itself.
+	kf2, err := c.Parse("x/evm/keeper/keeper.go")
+	if err != nil {
+		return err
+	}
+	var fields []string
+	for _, d := range kf2.Decls {
+		gd, ok := d.(*ast.GenDecl)
+		if !ok {
+			continue
+		}
+		for _, sp := range gd.Specs {
+			ts, ok := sp.(*ast.TypeSpec)
+			if !ok || ts.Name.Name != "Keeper" {
+				continue
+			}
+			st, ok := ts.Type.(*ast.StructType)
+			if !ok {
+				return fmt.Errorf("x/evm/keeper Keeper is not a struct")
+			}
+			for _, f := range st.Fields.List {
+				ty := strings.Join(strings.Fields(c.Src(f.Type)), " ")
+				if len(f.Names) == 0 {
+					fields = append(fields, "<embedded> "+ty)
+				}
+				for _, n := range f.Names {
+					fields = append(fields, n.Name+" "+ty)
+				}
+			}
+		}
+	}
+	c.P("(* x/evm/keeper/keeper.go: every field of the Keeper struct *)")
+	c.P("Definition evm_keeper_fields : list string := %s.", CoqStrList(fields))
+	c.Info("evm_keeper_fields", fields)
+	proj := "?"
+	{
+		var rhs []string
+		ast.Inspect(ti.Body, func(n ast.Node) bool {
+			as, ok := n.(*ast.AssignStmt)
+			if ok && len(as.Lhs) == 1 && len(as.Rhs) == 1 && c.Src(as.Lhs[0]) == "valset" && as.Tok == token.ASSIGN {
+				rhs = append(rhs, strings.Join(strings.Fields(c.Src(as.Rhs[0])), " "))
+			}
+			return true
+		})
+		if len(rhs) == 1 {
+			proj = rhs[0]
+		} else {
+			proj = fmt.Sprintf("?%d assignments to valset: %v", len(rhs), rhs)
+		}
+		if tf := FindFunc(kf2, "", "transformSnapshotToCompass"); tf == nil || tf.Type.Params == nil || len(tf.Type.Params.List) != 3 ||
+			!strings.Contains(c.Src(tf.Body), "ext.GetChainReferenceID() == chainReferenceID") {
+			proj = "?transformSnapshotToCompass no longer filters the accounts by its chainReferenceID parameter; " + proj
+		}
+	}
+	c.P("Definition integrity_valset_projection : string := %s.", CoqStr(proj))
 	return nil
 }
